@@ -13,6 +13,7 @@ Pipeline (DESIGN.md section 10):
   5. verdict, known-finding classification, replay file, evidence
 """
 import concurrent.futures as cf
+import zlib
 import fcntl
 import json
 import os
@@ -155,17 +156,35 @@ def eval_cases(pid, wdir):
 # ---------------------------------------------------------------- Go harness
 
 def harness_build():
+    """builds the harness against /repo's working tree.  Development aid: VERIF_REPO=<dir> builds a
+    private copy of the harness against another checkout (used to try seeded changes in a scratch
+    worktree without touching /repo); the registered checks never set it."""
+    alt = os.environ.get("VERIF_REPO")
+    if alt:
+        hdir = os.path.join(WORK, "harness-alt-" + str(zlib.crc32(alt.encode()) % 100000))
+        shutil.rmtree(hdir, ignore_errors=True)
+        shutil.copytree(HARNESS, hdir)
+        gm = open(os.path.join(hdir, "go.mod")).read().replace("=> /repo", "=> " + alt)
+        open(os.path.join(hdir, "go.mod"), "w").write(gm)
+        shutil.copyfile(os.path.join(alt, "go.sum"), os.path.join(hdir, "go.sum"))
+        binp = os.path.join(hdir, "harness.test")
+        rc, out = sh(["go", "test", "-c", "-tags", "verif", "-o", binp, "."], cwd=hdir, env=GOENV, timeout=3000)
+        if rc != 0:
+            raise Broken("harness build against %s" % alt, out[-4000:])
+        return binp
     with Lock("harness"):
         shutil.copyfile(os.path.join(REPO, "go.sum"), os.path.join(HARNESS, "go.sum"))
-        rc, out = sh(["go", "test", "-c", "-tags", "verif", "-o", os.path.join(WORK, "harness.test"), "."],
+        binp = os.path.join(WORK, "harness.test")
+        rc, out = sh(["go", "test", "-c", "-tags", "verif", "-o", binp, "."],
                      cwd=HARNESS, env=GOENV, timeout=3000)
         if rc != 0:
             raise Broken("harness build against /repo working tree (go test -c -tags verif)", out[-4000:])
+        return binp
 
 
-def harness_run(pid, test, tier, seed, wdir, timeout):
+def harness_run(binp, pid, test, tier, seed, wdir, timeout):
     env = dict(GOENV, VERIF_OUT=wdir, VERIF_SEED=str(seed), VERIF_TIER=tier)
-    rc, out = sh([os.path.join(WORK, "harness.test"), "-test.run", "^%s$" % test, "-test.timeout", "%ds" % timeout],
+    rc, out = sh([binp, "-test.run", "^%s$" % test, "-test.timeout", "%ds" % timeout],
                  cwd=wdir, env=env, timeout=timeout + 60)
     open(os.path.join(wdir, "harness.log"), "w").write(out)
     rep_p = os.path.join(wdir, "impl_%s.json" % pid)
@@ -217,12 +236,12 @@ def main(argv):
         return 2
     cfg = props.PROPS[pid]
     t0 = time.time()
-    wdir = os.path.join(WORK, pid)
+    wdir = os.path.join(WORK, pid + ("-alt%d" % (zlib.crc32(os.environ["VERIF_REPO"].encode()) % 100000) if os.environ.get("VERIF_REPO") else ""))
     shutil.rmtree(wdir, ignore_errors=True)
     os.makedirs(wdir, exist_ok=True)
     os.makedirs(os.path.join(VERIF, "evidence"), exist_ok=True)
     os.makedirs(os.path.join(VERIF, "replays"), exist_ok=True)
-    replay_path = os.path.join(VERIF, "replays", "%s-%d-%s.json" % (pid, seed, tier))
+    replay_path = os.path.join(VERIF, "replays", "%s-%d-%s%s.json" % (pid, seed, tier, "-alt" if os.environ.get("VERIF_REPO") else ""))
 
     violations = []   # dicts: kind, what, input
     known_seen = {}
@@ -239,8 +258,8 @@ def main(argv):
             extra = [x for x in a["axioms"] if x not in ALLOWED_AXIOMS]
             if extra:
                 raise Broken("theorem %s depends on unexpected axioms" % a["theorem"], str(extra))
-        harness_build()
-        rep = harness_run(pid, cfg["test"], tier, seed, wdir, cfg.get("timeout", {}).get(tier, 1500))
+        binp = harness_build()
+        rep = harness_run(binp, pid, cfg["test"], tier, seed, wdir, cfg.get("timeout", {}).get(tier, 1500))
         mism, ncases, nshards = eval_cases(pid, wdir)
         if tier == "thorough" and os.environ.get("VERIF_NO_COQCHK") != "1":
             coqchk = run_coqchk(pid)
@@ -344,7 +363,9 @@ def write_evidence(pid, cfg, tier, seed, assum, rep, ncases, nshards, mism, know
         "wall_s": round(wall, 2),
         "violations": len(violations),
     }
-    json.dump(ev, open(os.path.join(VERIF, "evidence", pid + ".json"), "w"), indent=1, default=str)
+    evdir = os.path.join(VERIF, "evidence") if not os.environ.get("VERIF_REPO") else os.path.join(WORK, "evidence-alt")
+    os.makedirs(evdir, exist_ok=True)
+    json.dump(ev, open(os.path.join(evdir, pid + ".json"), "w"), indent=1, default=str)
 
 
 if __name__ == "__main__":
